@@ -637,6 +637,14 @@ func (env *SpecEnv) call(x *SExpr) (sval, error) {
 			return sval{}, err
 		}
 		return sval{app(SInt, "rune_count", s.t), types.Typ[types.Int]}, nil
+	case "nsub":
+		// number of capture groups of a compiled regular expression
+		v, err := env.eval(args[0])
+		if err != nil {
+			return sval{}, err
+		}
+		e.U.declareFun("rx.nsub", []Sort{SInt}, SInt)
+		return sval{app(SInt, "rx.nsub", v.t), types.Typ[types.Int]}, nil
 	case "content":
 		// abstract content of a strings.Builder reference
 		b, err := env.eval(args[0])
@@ -755,6 +763,17 @@ func (f *Frame) resolverAt(blk *ssa.BasicBlock, phiEnv map[*ssa.Phi]Term, st *St
 		if k := strings.Index(name, "#"); k > 0 {
 			want = name[:k]
 			ord, _ = strconv.Atoi(name[k+1:])
+			if ord == 0 {
+				// name#0: the entry value of the parameter
+				for _, p := range f.fn.Params {
+					if p.Name() == want {
+						if t, ok := f.vals[p]; ok {
+							return t, p.Type(), true
+						}
+					}
+				}
+				return Term{}, nil, false
+			}
 		}
 		// phis of this block
 		seen := 0
